@@ -65,7 +65,7 @@ def obligations(tier, seed):
     pointless = list(families.c16_pointless_skeletons())
     loopv = list(poolfam.loopvar_skeletons())
     if quick:
-        sks = (rnd.sample(hv, 60) + gr[:30] + rnd.sample(lit, 20) + rnd.sample(c17, 12) + rnd.sample(pointless, 12) + loopv)
+        sks = (rnd.sample(hv, 60) + gr[:30] + rnd.sample(lit[::5], 20) + rnd.sample(c17[::6], 12) + rnd.sample(pointless[::2], 12) + loopv)
     else:
         sks = hv + gr + lit[::5] + c17[::6] + pointless[::2] + loopv
     obs = []
